@@ -59,7 +59,7 @@ theorem parseStrBody_char (np : Nat → Bool) (q : Nat) (hq : q = 39 ∨ q = 34)
         · subst h13; simp [parseStrBody, hq92]
         · simp only [h9, h10, h13, ↓reduceIte]
           by_cases hctl : c < 32 ∨ c = 127
-          · simp only [hctl, ↓reduceIte, List.cons_append, List.nil_append, List.append_assoc]
+          · simp only [hctl, ↓reduceIte, List.cons_append, List.nil_append]
             simp [parseStrBody, hq92, takeHex2 c (by omega) tail]
           · simp only [hctl, ↓reduceIte]
             by_cases h127 : c < 127
@@ -69,13 +69,13 @@ theorem parseStrBody_char (np : Nat → Bool) (q : Nat) (hq : q = 39 ∨ q = 34)
               by_cases hnp : np c = true
               · simp only [hnp, ↓reduceIte]
                 by_cases h256 : c < 256
-                · simp only [h256, ↓reduceIte, List.cons_append, List.nil_append, List.append_assoc]
+                · simp only [h256, ↓reduceIte, List.cons_append, List.nil_append]
                   simp [parseStrBody, hq92, takeHex2 c h256 tail]
                 · simp only [h256, ↓reduceIte]
                   by_cases h64k : c < 65536
-                  · simp only [h64k, ↓reduceIte, List.cons_append, List.nil_append, List.append_assoc]
+                  · simp only [h64k, ↓reduceIte, List.cons_append, List.nil_append]
                     simp [parseStrBody, hq92, takeHex4 c h64k tail]
-                  · simp only [h64k, ↓reduceIte, List.cons_append, List.nil_append, List.append_assoc]
+                  · simp only [h64k, ↓reduceIte, List.cons_append, List.nil_append]
                     simp [parseStrBody, hq92, takeHex8 c hc tail]
               · simp only [hnp, Bool.false_eq_true, ↓reduceIte, List.cons_append, List.nil_append]
                 simp [parseStrBody, hcq, h10, h13, hc92]
